@@ -17,6 +17,7 @@ type callRec struct {
 	name string // types.Func FullName
 	args []*Term
 	lits []string // constant string arguments ("" when not constant), same indexing as args
+	res  []*Term   // result terms (logged module functions only)
 	hide *callInfo // for a gap ("?"): what the callee that caused it may call (nil: anything)
 }
 
